@@ -576,6 +576,10 @@ func (g *a4) checkGoroutineFn(fn *ssa.Function, shared, pdep, perW map[ssa.Value
 						}
 					} else if pdep[x.X] {
 						mark(pdep, v)
+					} else if x.Op == token.ARROW {
+						// a value received from a channel is a unit of work handed to this goroutine alone:
+						// each sent value is delivered to exactly one receiver
+						mark(pdep, v)
 					}
 				case *ssa.BinOp:
 					if pdep[x.X] || pdep[x.Y] {
